@@ -162,17 +162,31 @@ def worker(pid, tier, seed, shard, nshards, outdir):
     counter = [0]
     strat = lab.strategy()
 
+    class BudgetExhausted(Exception):
+        pass
+
     def collect(case):
-        counter[0] += 1
         if time.time() > deadline:
-            stats.skipped_budget += 1
-            return
+            # out of wall-clock budget: "inconclusive for the remaining cases" - end the campaign
+            # (raising is the only way to make Hypothesis stop generating)
+            raise BudgetExhausted()
+        counter[0] += 1
         run_one(lab, stats, case, counter[0])
 
     test = hypothesis.seed(hseed)(
         hypothesis_settings(n, [Phase.generate])(given(case=strat)(collect))
     )
-    test()
+    try:
+        test()
+    except BudgetExhausted:
+        stats.skipped_budget = max(0, n - counter[0])
+    except BaseException as e:  # Hypothesis may wrap it (Flaky / exception group)
+        if time.time() > deadline and not isinstance(e, (KeyboardInterrupt, SystemExit, HarnessError)) and "BudgetExhausted" in repr(e) + "".join(
+            traceback.format_exception(type(e), e, e.__traceback__)
+        ):
+            stats.skipped_budget = max(0, n - counter[0])
+        else:
+            raise
 
     # 4. shrink each new signature on its own: same seed, same settings, the
     #    test raises only for that signature, so Hypothesis reaches the same
